@@ -112,6 +112,9 @@ pub fn exemplars() -> Result<Vec<Exemplar>, Violation> {
         skip_bits: vec![],
     });
     let s_pending = server.clone();
+    // the same request again while its handshake is pending (a retransmission): tampered copies of it are refused like
+    // tampered first requests
+    v.push(Exemplar { name: "connection request (repeated) -> server where it is pending", rx: Rx::Server(s_pending.clone(), client_addr(1)), datagram: req.clone(), other_key: None, other_protocol: vec![], skip_bits: (4..8).map(|b| (0usize, 1u8 << b)).collect() });
     nc::cli_process(&mut c1, &challenge)?;
     let c_responding = c1.clone();
     let (resp, _) = nc::cli_update(&mut c1, Duration::from_millis(250))?.ok_or_else(|| fail("no response"))?;
